@@ -462,7 +462,12 @@ func printTerm(sb *strings.Builder, t *Term, names map[int]string) {
 	sb.WriteString("(" + t.Head)
 	for _, a := range t.Args {
 		sb.WriteByte(' ')
-		printTerm(sb, a, names)
+		if strings.HasPrefix(t.Head, "(as const") {
+			// cvc5 accepts only syntactic values as array defaults: print them in full
+			printTerm(sb, a, nil)
+		} else {
+			printTerm(sb, a, names)
+		}
 	}
 	sb.WriteByte(')')
 }
